@@ -19,11 +19,30 @@ def run(ctx, replay):
     if g["violated"] != "ThreadzCountsAllThreads":
         raise vcheck.Infra("vacuity guard: %s" % g["out"][-1500:])
     ctx.tlc("Legacy", "MCLegacy.cfg", consts={"Tier": ctx.tier, "Emit": True, "Broken": "none"}, emit_to=cases, timeout=1800, name="MCLegacy")
+    # vacuity guard for the memory-map forms: the catalogue must still hold a split mapping that the rules join and
+    # move to the top, and file names that go through an attribute defined before the most recent one
+    joined = attrs = 0
+    with open(cases) as f:
+        for line in f:
+            if '"split2"' not in line and '"attrs"' not in line:
+                continue
+            c = json.loads(json.loads(line))
+            ml = [(m["file"], m["start"], m["limit"], m["off"]) for m in c["maplist"] if m["file"]]
+            if c["map"] == "split2" and ml == [("/bin/exe", 8, 4096, 0), ("/lib/libc.so.6", 4096, 8192, 0)] \
+                    and sum(1 for e in c["mapsrc"] if e["k"] == "map" and e["x"]) == 3:
+                joined += 1
+            if c["map"] == "attrs" and [m[0] for m in ml] == ["/b/bin/exe", "/s/lib/libc.so.6", "/usr/lib/libm.so.6"] \
+                    and [e["name"] for e in c["mapsrc"] if e["k"] == "attr"] == ["build", "source", "libs"]:
+                attrs += 1
+    if not joined or not attrs:
+        raise vcheck.Infra("vacuity guard: the emitted cases hold %d split2 and %d attrs memory maps with the expected mapping list" % (joined, attrs))
     ctx.harness(binary, cases=cases, n=0)
     return ctx.finish(
         "model_checking",
         assumptions=["the unsampling and cycles->ns rules are named in the specification and evaluated by the harness with an independent formula (expm1 / exact rationals); truncated floats are compared within one unit or 1e-9 relative",
                      "Java stacks are compared through the names the trailing location section gives each address (the parser clears the addresses)",
                      "a heap record with count 0 carries no block-size label (zero numeric labels cannot be represented in profile.proto; fix recorded under C02)",
-                     "memory maps: two executable mappings and one non-executable one; the mapping-merging heuristics of massageMappings are exercised only as far as they must leave these alone"],
+                     "memory maps: the specification lists the lines of each map form (entries, attr=value lines) and derives the expected Mapping list with the named rules Substitute, SkipNonExec, MergeAdjacent, MainFirst, ExtendDown and Fake; the whole list of the parsed profile is compared. Not covered: the 0x400000 and /anon_hugepage rules, an attribute assigned twice, more than one $attr in a file name",
+                     "parsing is history-free: every document of the split and offset map forms is rendered once more with file names of its own and parsed four times in the harness process; parses 2 to 4 must print exactly as parse 1 (which is held against the specification), must leave the earlier profiles alone and must not hand out a Mapping object that an earlier profile holds",
+                     "the codec round trip of the parsed profile is uncompressed except for one comparison in 64 (gzip is C02's subject and was nine tenths of this check's harness time)"],
         exhaustive=True)
